@@ -239,6 +239,36 @@ def is_prefix(p, q):
             return False
 
 
+DOWN_TY = {}
+
+
+def _note_down(term, e):
+    if len(e) > 3 and e[3]:
+        ty = e[3] if isinstance(e[3], str) else (e[3].get("s") if isinstance(e[3], dict) else None)
+        if ty:
+            DOWN_TY.setdefault(term, set()).add(ty)
+
+
+def _mk_down_pl(base, pl):
+    r = mk_down(base, pl[2])
+    ty = DOWN_TY.get(pl)
+    if ty is not None and r[0] == "down":
+        DOWN_TY.setdefault(r, set()).update(ty)
+    return r
+
+
+def _down_adt_ok(down, path):
+    """The eta rule only holds inside one enum: Touch(p) rebuilt as Some(p) is not the scrutinee."""
+    tys = DOWN_TY.get(down)
+    if not tys:
+        return True
+    for ty in tys:
+        ty = ty.lstrip("&").replace("mut ", "")
+        if ty == path or ty.startswith(path + "<") or ty.split("<")[0].split("::")[-1] == path.split("::")[-1]:
+            return True
+    return False
+
+
 def places_disjoint(p, q):
     """provably non-overlapping places (syntactic)"""
     cp, cq = place_chain(p), place_chain(q)
@@ -445,6 +475,8 @@ class Interp:
         self._cur_bb = None
         self.hooks = hooks or {}
         self.uid_prefix = uid_prefix
+        if parent is None and not uid_prefix:
+            DOWN_TY.clear()  # place and value terms are relative to the body being analysed
         self.parent = parent
         self.assume = assume  # callable(I, st): add entry assumptions (type invariants)
         self.cfg = cfgmod.CFG(body)
@@ -615,6 +647,7 @@ class Interp:
                 return cur
             elif k == "downcast":
                 cur = ("down", cur, e[1])
+                _note_down(cur, e)
             else:
                 return cur
         return cur
@@ -705,7 +738,7 @@ class Interp:
             if k == "field":
                 return mk_proj(base, pl[2])
             if k == "down":
-                return mk_down(base, pl[2])
+                return _mk_down_pl(base, pl)
             if k == "index":
                 if base[0] == "agg" and is_int(pl[2]) and pl[2][1] < len(base[2]):
                     return base[2][pl[2][1]]
@@ -728,7 +761,7 @@ class Interp:
                         if c[0] == "field":
                             v = mk_proj(v, c[2])
                         elif c[0] == "down":
-                            v = mk_down(v, c[2])
+                            v = _mk_down_pl(v, c)
                         else:
                             ok = False
                             break
@@ -809,6 +842,7 @@ class Interp:
                     cur = ("index", cur, ix)
             elif k == "downcast":
                 cur = ("down", cur, e[1])
+                _note_down(cur, e)
             elif k == "cidx":
                 if not e[3]:
                     if cur[0] == "slicefrom":
@@ -979,7 +1013,7 @@ class Interp:
                     return ("union", ak["path"], ak["union_field"], ops)
                 # eta: rebuilding a variant from all the fields of the same variant of X is X itself
                 # (Some(b) where b was bound by `Some(b)` matching X)
-                if ops and all(isinstance(o, tuple) and len(o) == 3 and o[0] == "proj" and o[1] == i and isinstance(o[2], tuple) and o[2][0] == "down" and o[2][2] == ak["variant"] for i, o in enumerate(ops)) and len({o[2] for o in ops}) == 1 and len(ops) == len(ak["fields"]):
+                if ops and all(isinstance(o, tuple) and len(o) == 3 and o[0] == "proj" and o[1] == i and isinstance(o[2], tuple) and o[2][0] == "down" and o[2][2] == ak["variant"] for i, o in enumerate(ops)) and len({o[2] for o in ops}) == 1 and len(ops) == len(ak["fields"]) and _down_adt_ok(ops[0][2], ak["path"]):
                     return ops[0][2][1]
                 return ("agg", ("adt", ak["path"], ak["variant"], ak["variant_name"], tuple(ak["fields"])), ops)
             if ak["k"] == "closure":
@@ -1618,7 +1652,9 @@ def ax_mem_take(I, st, fn, args, bb):
     """std::mem::take(&mut x): returns the old value, leaves Default::default()"""
     pa = _ref_place(args[0])
     va = I.read_pl(st, pa)
-    I.write_pl(st, pa, ("call", "std::default::Default::default", (), None), bb, None)
+    targs = (fn.get("resolved") or fn).get("args") or fn.get("args") or []
+    dflt = mk_int(0) if targs and str(targs[0]) == "bool" else ("call", "std::default::Default::default", (), None)   # bool::default() is false
+    I.write_pl(st, pa, dflt, bb, None)
     return va
 
 
@@ -1838,6 +1874,42 @@ def comb_option(kind):
     return comb
 
 
+def comb_option_filter(I, st, t, bb, fn, args, key, argtys):
+    """opt.filter(|x| p(x)): None stays None; Some(x) is kept exactly when the predicate's body says so"""
+    o, f = args[0], args[1]
+    d = mk_discr(o)
+    outs = []
+    probe = st.fork()
+    _comb_event(I, probe, bb, fn, args, key)
+    s0 = I._split_on(probe, d, 0)
+    if s0 is not None:
+        outs.append((s0, NONE))
+    s1 = I._split_on(probe, d, 1)
+    if s1 is not None:
+        pay = _payload(I, s1, o, bb)
+        r = I._apply_closure(s1, bb, f, (("ref", ("constval", pay)),))
+        if r is None:
+            return None
+        for ns, v in r:
+            st_t = I._split_on(ns, v, 1)
+            if st_t is not None:
+                outs.append((st_t, mk_some(pay)))
+            st_f = I._split_on(ns, v, 0)
+            if st_f is not None:
+                outs.append((st_f, NONE))
+    return I._finish_comb(t, bb, outs)
+
+
+def comb_option_unwrap_or(I, st, t, bb, fn, args, key, argtys):
+    """opt.unwrap_or(d) of an Option whose variant is known in this state"""
+    o, dflt = args[0], args[1]
+    if o == NONE:
+        return I._finish_comb(t, bb, [(st.fork(), dflt)])
+    if isinstance(o, tuple) and o and o[0] == "agg" and isinstance(o[1], tuple) and o[1][0] == "adt" and len(o[1]) > 3 and o[1][3] == "Some":
+        return I._finish_comb(t, bb, [(st.fork(), o[2][0])])
+    return None
+
+
 def comb_bool_then(I, st, t, bb, fn, args, key, argtys):
     c, f = args[0], args[1]
     outs = []
@@ -1887,6 +1959,42 @@ def _stateless_closure_at_entry(I, v):
     return v
 
 
+def _call_named_trait_method(I, st, t, bb, f, vals):
+    """`op(a, b)` where op is a trait method passed by name (`Add::add` handed to a helper as impl FnOnce(Self, Self) -> Self)
+    and the crate has exactly one impl of that trait for the first argument's type: the call is presented as the direct,
+    pure call of that impl's method (what the monomorphised code does)"""
+    crate = I.body.crate
+    parts = str(f[2]).split("::")
+    if len(parts) < 2:
+        return None
+    trait_path, meth = "::".join(parts[:-1]), parts[-1]
+    self_ty = None
+    m_ = _re.match(r"^([\w:<> ,&']+?)\(", str(f[3])) if len(f) > 3 else None
+    if m_:
+        self_ty = m_.group(1).strip()
+    cands = []
+    for imp in crate.impls:
+        if str(imp.get("trait") or "").split("<")[0] != trait_path or imp.get("trait_args") and len(imp["trait_args"]) > 1 and str(imp["trait_args"][-1]).startswith("&"):
+            continue
+        if self_ty is not None and str(imp.get("self_ty")) != self_ty:
+            continue
+        for it in imp["items"]:
+            if it["name"] == meth and it["key"] in crate.by_key:
+                cands.append(crate.by_key[it["key"]])
+    if len(cands) != 1:
+        return None
+    tgt = cands[0]
+    prog = getattr(crate, "program", None)
+    if not effects.purity(tgt, prog):
+        return None
+    uid = I.uid(bb)
+    fn2 = {"def": tgt.key, "path": tgt.path, "name": tgt.name, "krate": crate.name, "local": True, "resolved": {"def": tgt.key, "path": tgt.path, "krate": crate.name, "local": True, "kind": "item", "is_closure": False}}
+    ns = st.fork()
+    res = I.pure_term(ns, tgt.path, vals)
+    ns.add_event(Event("call", bb, callee=tgt.path, fn=fn2, args=vals, res=res, state=(ns.facts, ns.mem, ns.path), extra={"pure": True, "handled": False, "dest": t["dest"], "name": tgt.name, "trait": trait_path, "gpath": tgt.path, "argvals": tuple(None for _ in vals), "argtys": [], "in": I.body.path if I.parent is not None else None, "uid": uid}))
+    return I._finish_comb(t, bb, [(ns, res)])
+
+
 def comb_fn_call(I, st, t, bb, fn, args, key, argtys):
     """`f(x)` where f is a closure value known in this state (a closure handed to an inlined helper):
     the closure's body is run on the arguments"""
@@ -1903,6 +2011,12 @@ def comb_fn_call(I, st, t, bb, fn, args, key, argtys):
     tup = args[1]
     if not (isinstance(tup, tuple) and tup and tup[0] == "agg" and tup[1] == "tuple"):
         return None
+    if isinstance(f, tuple) and f and f[0] == "fnitem" and f[1] not in I.inline:
+        return _call_named_trait_method(I, st, t, bb, f, tuple(tup[2]))
+    if isinstance(f, tuple) and f and f[0] == "fnitem" and f[1] in I.inline:
+        probe = st.fork()
+        r = I._apply_closure(probe, bb, f, tuple(tup[2]))
+        return None if r is None else I._finish_comb(t, bb, r)
     if not (isinstance(f, tuple) and f and f[0] == "agg" and isinstance(f[1], tuple) and f[1] and f[1][0] == "closure"):
         return None
     probe = st.fork()
@@ -1921,6 +2035,8 @@ COMBINATORS = {
     "std::option::Option::<T>::map_or": comb_option("map_or"),
     "std::option::Option::<T>::map_or_else": comb_option("map_or_else"),
     "std::option::Option::<T>::unwrap_or_else": comb_option("unwrap_or_else"),
+    "std::option::Option::<T>::filter": comb_option_filter,
+    "std::option::Option::<T>::unwrap_or": comb_option_unwrap_or,
     "core::bool::<impl bool>::then": comb_bool_then,
     "std::bool::<impl bool>::then": comb_bool_then,
     "core::bool::<impl bool>::then_some": comb_bool_then_some,
